@@ -957,3 +957,19 @@ Proof.
     replace (num_prior (ROpsE e) (length ps) ratio + (j - num_prior (ROpsE e) (length ps) ratio))%nat with j in E by lia.
     eexists. split; [|split; [exact E | exact R2]]. lia.
 Qed.
+
+(* the resampled part of the prior variant obeys the count bound w.r.t. the renormalised kept weights *)
+Lemma prior_count_bound {P} (ratio : R) (ps : list P) (lw : list R) (u1 : R) :
+  let tl : list R := tmp_lw ROps ratio ps lw in
+  (0 < length tl)%nat -> 0 < u1 -> u1 * INR (length tl) < 1 ->
+  sumR (map exp tl) = 1 /\
+  forall i, (i < length tl)%nat ->
+  Rabs (INR (count_occ Nat.eq_dec (rpar ROps ratio ps lw u1) i) - INR (length tl) * exp (nth i tl 0)) < 1.
+Proof.
+  intros tl Hpos Hu0 Hu1.
+  assert (Hs : sumR (map exp tl) = 1).
+  { unfold tl, tmp_lw. apply lse_normalise_sum. intro E.
+    unfold tl, tmp_lw in Hpos. rewrite E in Hpos. simpl in Hpos. lia. }
+  split; auto. intros i Hi.
+  exact (count_bound_statement exp tl u1 exp_nonneg Hpos Hs Hu0 Hu1 i Hi).
+Qed.
